@@ -131,6 +131,15 @@ var c04Funcs = []string{
 	"sq = x => x * x",
 	"addg = x => x + g1",
 	"twice = (f, x) => f(f(x))",
+	// closures over a constant-named or function-valued parameter, dynamic shadowing, nested definitions
+	"func mkc(N) {x => x + N}",
+	"func mkf(h) {x => h(x) + 1}",
+	"func ap2(a) {sq(a)}",
+	"func sh(sq, a) {ap2(a)}",
+	"func shk(K1, a) {rc(a)}",
+	"func outer() {y = g1; func inner(a) {a + g1}; inner}",
+	"func outer2(N) {func inner2(a) {a * N}; inner2(3)}",
+	"callsq = a => sq(a) * 2",
 }
 
 var c04Args = []string{"0", "1", "2", "3", "1.0", "0.0", "(-0.0)", "[0.0]", "[(-0.0)]", "\"a\"", "[1]", "[1,2,3,4,5,6,7,8,9]", "{\"k\":1}", "nil", "true"}
@@ -153,7 +162,7 @@ func (p c04) session(c *fw.Ctx) []string {
 	}
 	n := 10 + r.IntN(40)
 	for k := 0; k < n; k++ {
-		switch r.IntN(34) {
+		switch r.IntN(42) {
 		case 0:
 			in = append(in, "p1("+small()+", "+small()+")")
 		case 1:
@@ -220,6 +229,27 @@ func (p c04) session(c *fw.Ctx) []string {
 			in = append(in, "[pr(1), pr(1), pr(2)]")
 		case 32:
 			in = append(in, "func loc() {v = "+small()+"; inner = () => v + g1; inner()}", "loc()", "loc()")
+		case 33:
+			in = append(in, "ca = mkc("+small()+"); cb = mkc("+small()+"); [ca(1), cb(1), ca(1), cb(2)]")
+		case 34:
+			in = append(in, "fa = mkf(sq); fb = mkf(addg); fc = mkf(x => x * "+small()+"); [fa(2), fb(2), fc(2), fa(2)]")
+		case 35:
+			in = append(in, "ap2("+small()+")", "sh(addg, "+small()+")", "sh(x => x + 7, "+small()+")", "ap2("+small()+")")
+		case 36:
+			in = append(in, "rc("+small()+")", "shk("+fmt.Sprint(10+r.IntN(3))+", "+small()+")", "rc("+small()+")")
+		case 37:
+			in = append(in, "gi = outer(); gi("+small()+")")
+		case 38:
+			in = append(in, "outer2("+small()+")", "outer2("+small()+")")
+		case 39: // re-bind a function valued variable to something else, with = or :=, and back
+			// (the users of the variable are called with the same arguments before and after)
+			k := small()
+			calls := []string{"ap2(" + k + ")", "callsq(" + k + ")", "twice(sq, " + k + ")", "twice(addg, " + k + ")", "ap(sq, " + k + ")"}
+			in = append(in, calls...)
+			in = append(in, []string{"sq = 5", "sq := x => x + 100", "addg := x => x * g1", "sq = x => x * x", "sq = nil", "twice := (f, x) => x", "ap2 := a => sq(a) + 1000"}[r.IntN(7)])
+			in = append(in, calls...)
+		case 40:
+			in = append(in, "callsq("+small()+")", "twice(callsq, "+small()+")")
 		default:
 			in = append(in, "w2("+small()+") + w3("+small()+")")
 		}
